@@ -206,11 +206,19 @@ class Model:
                 for i, nm in enumerate(self.names, start=1)]
 
     def singleton_after_anonymous(self):
-        """is there a single variable created when some earlier identifier is
-        anonymous (outside any group)?"""
-        for vid, _ in self.singletons:
-            if any(nm is None for nm in self.names[:vid - 1]):
-                return True
+        """is there a single variable created while an anonymous variable
+        (outside any group) precedes it with no variable of an indexed group
+        in between?"""
+        single = {vid for vid, _ in self.singletons}
+        pending = False
+        for vid, nm in enumerate(self.names, start=1):
+            if nm is None:
+                pending = True
+            elif vid in single:
+                if pending:
+                    return True
+            else:
+                pending = False
         return False
 
 
